@@ -17,6 +17,8 @@ namespace Compile
 
 /-- `O` and `O'` agree on admissible operands, and `O`'s operations preserve admissibility -/
 structure OpsAgree {σ P : Type} (O O' : Ops σ P) (V : Nat → Prop) (I : σ → Prop) (G : P → Prop) : Prop where
+  tru : O.tru = O'.tru ∧ G O.tru
+  fls : O.fls = O'.fls ∧ G O.fls
   var : ∀ x pol, V x → O.var x pol = O'.var x pol ∧ G (O.var x pol)
   neg : ∀ p, G p → O.neg p = O'.neg p ∧ G (O.neg p)
   and : ∀ s a b, I s → G a → G b → O.and s a b = O'.and s a b ∧ ∀ s' r, O.and s a b = some (s', r) → I s' ∧ G r
@@ -158,6 +160,127 @@ theorem compileExpr_agree (A : OpsAgree O O' V I G) :
           obtain ⟨i3, g3⟩ := p3 _ _ hc3
           exact A.ite s3 r1 r2 r3 i3 g1 g2 g3
 
+theorem compilePlan_agree (A : OpsAgree O O' V I G) :
+    ∀ (e : Plan) (s : σ), I s → e.AllVars V →
+      compilePlan O s e = compilePlan O' s e ∧
+      ∀ s' r, compilePlan O s e = some (s', r) → I s' ∧ G r := by
+  intro e
+  induction e with
+  | lit x pol =>
+    intro s hs hv
+    obtain ⟨e1, g1⟩ := A.var x pol hv
+    refine ⟨by simp only [compilePlan, e1], fun s' r h => ?_⟩
+    simp only [compilePlan, Option.some.injEq, Prod.mk.injEq] at h
+    obtain ⟨rfl, rfl⟩ := h; exact ⟨hs, g1⟩
+  | constTrue =>
+    intro s hs _
+    refine ⟨by simp only [compilePlan, A.tru.1], fun s' r h => ?_⟩
+    simp only [compilePlan, Option.some.injEq, Prod.mk.injEq] at h
+    obtain ⟨rfl, rfl⟩ := h; exact ⟨hs, A.tru.2⟩
+  | constFalse =>
+    intro s hs _
+    refine ⟨by simp only [compilePlan, A.fls.1], fun s' r h => ?_⟩
+    simp only [compilePlan, Option.some.injEq, Prod.mk.injEq] at h
+    obtain ⟨rfl, rfl⟩ := h; exact ⟨hs, A.fls.2⟩
+  | not e ih =>
+    intro s hs hv
+    obtain ⟨e1, p1⟩ := ih s hs hv
+    simp only [compilePlan]
+    rw [← e1]
+    cases hc : compilePlan O s e with
+    | none => exact ⟨rfl, fun _ _ h => by cases h⟩
+    | some sr =>
+      obtain ⟨s1, r1⟩ := sr
+      obtain ⟨i1, g1⟩ := p1 _ _ hc
+      obtain ⟨e2, g2⟩ := A.neg r1 g1
+      refine ⟨by simp only [e2], fun s' r h => ?_⟩
+      simp only [Option.some.injEq, Prod.mk.injEq] at h
+      obtain ⟨rfl, rfl⟩ := h; exact ⟨i1, g2⟩
+  | and l r ihl ihr =>
+    intro s hs hv
+    obtain ⟨e1, p1⟩ := ihl s hs hv.1
+    simp only [compilePlan]
+    rw [← e1]
+    cases hc : compilePlan O s l with
+    | none => exact ⟨rfl, fun _ _ h => by cases h⟩
+    | some sr =>
+      obtain ⟨s1, r1⟩ := sr
+      obtain ⟨i1, g1⟩ := p1 _ _ hc
+      obtain ⟨e2, p2⟩ := ihr s1 i1 hv.2
+      simp only []
+      rw [← e2]
+      cases hc2 : compilePlan O s1 r with
+      | none => exact ⟨rfl, fun _ _ h => by cases h⟩
+      | some sr2 =>
+        obtain ⟨s2, r2⟩ := sr2
+        obtain ⟨i2, g2⟩ := p2 _ _ hc2
+        exact A.and s2 r1 r2 i2 g1 g2
+  | or l r ihl ihr =>
+    intro s hs hv
+    obtain ⟨e1, p1⟩ := ihl s hs hv.1
+    simp only [compilePlan]
+    rw [← e1]
+    cases hc : compilePlan O s l with
+    | none => exact ⟨rfl, fun _ _ h => by cases h⟩
+    | some sr =>
+      obtain ⟨s1, r1⟩ := sr
+      obtain ⟨i1, g1⟩ := p1 _ _ hc
+      obtain ⟨e2, p2⟩ := ihr s1 i1 hv.2
+      simp only []
+      rw [← e2]
+      cases hc2 : compilePlan O s1 r with
+      | none => exact ⟨rfl, fun _ _ h => by cases h⟩
+      | some sr2 =>
+        obtain ⟨s2, r2⟩ := sr2
+        obtain ⟨i2, g2⟩ := p2 _ _ hc2
+        exact A.or s2 r1 r2 i2 g1 g2
+  | iff l r ihl ihr =>
+    intro s hs hv
+    obtain ⟨e1, p1⟩ := ihl s hs hv.1
+    simp only [compilePlan]
+    rw [← e1]
+    cases hc : compilePlan O s l with
+    | none => exact ⟨rfl, fun _ _ h => by cases h⟩
+    | some sr =>
+      obtain ⟨s1, r1⟩ := sr
+      obtain ⟨i1, g1⟩ := p1 _ _ hc
+      obtain ⟨e2, p2⟩ := ihr s1 i1 hv.2
+      simp only []
+      rw [← e2]
+      cases hc2 : compilePlan O s1 r with
+      | none => exact ⟨rfl, fun _ _ h => by cases h⟩
+      | some sr2 =>
+        obtain ⟨s2, r2⟩ := sr2
+        obtain ⟨i2, g2⟩ := p2 _ _ hc2
+        exact A.iff s2 r1 r2 i2 g1 g2
+  | ite g t e ihg iht ihe =>
+    intro s hs hv
+    obtain ⟨e1, p1⟩ := ihg s hs hv.1
+    simp only [compilePlan]
+    rw [← e1]
+    cases hc : compilePlan O s g with
+    | none => exact ⟨rfl, fun _ _ h => by cases h⟩
+    | some sr =>
+      obtain ⟨s1, r1⟩ := sr
+      obtain ⟨i1, g1⟩ := p1 _ _ hc
+      obtain ⟨e2, p2⟩ := iht s1 i1 hv.2.1
+      simp only []
+      rw [← e2]
+      cases hc2 : compilePlan O s1 t with
+      | none => exact ⟨rfl, fun _ _ h => by cases h⟩
+      | some sr2 =>
+        obtain ⟨s2, r2⟩ := sr2
+        obtain ⟨i2, g2⟩ := p2 _ _ hc2
+        obtain ⟨e3, p3⟩ := ihe s2 i2 hv.2.2
+        simp only []
+        rw [← e3]
+        cases hc3 : compilePlan O s2 e with
+        | none => exact ⟨rfl, fun _ _ h => by cases h⟩
+        | some sr3 =>
+          obtain ⟨s3, r3⟩ := sr3
+          obtain ⟨i3, g3⟩ := p3 _ _ hc3
+          exact A.ite s3 r1 r2 r3 i3 g1 g2 g3
+
 end Compile
 
 namespace Bdd
@@ -190,6 +313,8 @@ theorem bOr_lvl_congr (C : CacheImpl) (fuel : Nat) (s : C.σ) {a b : Ptr} (hs : 
 /-- the ROBDD builder under two level maps that agree below `N` -/
 theorem ops_agree (C : CacheImpl) (fuel : Nat) :
     Compile.OpsAgree (ops C lvl fuel) (ops C lvl' fuel) (· < N) (CacheVars C N) (Ptr.varsLt N) where
+  tru := ⟨rfl, trivial⟩
+  fls := ⟨rfl, trivial⟩
   var := fun x pol hx => ⟨rfl, mkVar_varsLt pol hx⟩
   neg := fun p hp => ⟨rfl, varsLt_neg hp⟩
   and := fun s a b hs va vb =>
